@@ -101,7 +101,7 @@ def build_times(ds, op):
     return t.view("datetime64[ns]")
 
 
-def call_op(gb, op, values, mask, ds, class_form_keys=None):
+def call_op(gb, op, values, mask, ds, class_form_keys=None, times=None):
     """Execute `op` on GroupBy `gb` (or in class form on raw keys)."""
     from groupby_lib.groupby.core import GroupBy
 
@@ -144,7 +144,7 @@ def call_op(gb, op, values, mask, ds, class_form_keys=None):
             if name == "ema":
                 return m("ema", values, alpha=op["alpha"], mask=mask)
             if name == "ema_timed":
-                return m("ema", values, halflife=op["halflife"], times=build_times(ds, op), mask=mask)
+                return m("ema", values, halflife=op["halflife"], times=build_times(ds, op) if times is None else times, mask=mask)
             if name in ("head", "tail", "nth"):
                 return m(name, values, op["n"], keep_input_index=op["keep_input_index"])
             if name == "group_nearby_members":
